@@ -2,6 +2,8 @@ package blockkit
 
 import (
 	"fmt"
+	"github.com/ethereum/go-ethereum/crypto"
+	"github.com/ethereum/go-ethereum/params"
 	"math/big"
 	"math/rand"
 
@@ -156,3 +158,123 @@ func StripBAL(b *types.Block) *types.Block {
 
 // Big is shorthand.
 func Big(v int64) *big.Int { return big.NewInt(v) }
+
+// Script is a hand-written block that pins down an interaction pattern which random generation
+// hits only rarely (code touched by size only, accounts created and probed in one block, ...).
+type Script struct {
+	Name  string
+	Specs []TxSpec
+}
+
+// Scripts returns the scripted blocks for a FRESH chain of this kit (block 1, 2, ... in this order):
+// the addresses of created contracts are derived from the creators' nonces at genesis.
+func (k *Kit) Scripts() []Script {
+	var (
+		facNonce = uint64(1) // Factory is allocated with nonce 1
+		keyNonce = map[int]uint64{}
+		zero     = new(big.Int)
+		mk       = func(kind string, from int, to *common.Address, val int64, data []byte) TxSpec {
+			keyNonce[from]++
+			return TxSpec{Kind: "script-" + kind, From: from, To: to, Value: big.NewInt(val), Gas: 3_000_000, Data: data, Tip: 2, AuthKey: -1}
+		}
+		ptr       = func(a common.Address) *common.Address { return &a }
+		nextChild = func() common.Address { a := crypto.CreateAddress(k.C.Factory, facNonce); facNonce++; return a }
+	)
+	_ = zero
+	var out []Script
+	// S1: create an account with EMPTY code and no balance (only its nonce makes it exist), then probe it,
+	//     call it and send value to it from later transactions of the same block
+	{
+		child := nextChild()
+		out = append(out, Script{"create-empty-then-probe", []TxSpec{
+			mk("factory", 0, ptr(k.C.Factory), 0, InitEmpty),
+			mk("prober", 1, ptr(k.C.Prober), 0, addrWord(child)),
+			mk("caller", 2, ptr(k.C.Caller), 5, cat(addrWord(child))),
+			mk("transfer", 0, ptr(child), 1000, nil),
+			mk("prober", 1, ptr(k.C.Prober), 0, addrWord(child)),
+		}})
+	}
+	// S2: create a counter with constructor storage, then call, delegate to and probe it
+	{
+		child := nextChild()
+		out = append(out, Script{"create-then-use", []TxSpec{
+			mk("factory", 0, ptr(k.C.Factory), 11, InitCounterWithStorage),
+			mk("caller", 1, ptr(k.C.Caller), 0, cat(addrWord(child))),
+			mk("delegator", 2, ptr(k.C.Delegator), 0, cat(addrWord(child))),
+			mk("prober", 0, ptr(k.C.Prober), 0, addrWord(child)),
+			mk("counter", 1, ptr(child), 0, nil),
+		}})
+	}
+	// S3: code touched through EXTCODESIZE / EXTCODEHASH only; balance probes of untouched and fresh accounts
+	{
+		fresh := common.BytesToAddress([]byte{0xf1, 0x01})
+		out = append(out, Script{"size-only-code-access", []TxSpec{
+			mk("prober", 0, ptr(k.C.Prober), 0, addrWord(k.C.Burner)),
+			mk("prober", 1, ptr(k.C.Prober), 0, addrWord(k.C.BlockHash2)),
+			mk("prober", 2, ptr(k.C.Prober), 0, addrWord(fresh)),
+			mk("transfer", 0, ptr(fresh), 7, nil),
+			mk("prober", 1, ptr(k.C.Prober), 0, addrWord(fresh)),
+		}})
+	}
+	// S4: CREATE2 of a contract that self-destructs in its constructor, twice with the same salt, and a probe
+	{
+		init := InitEphemeral
+		salt := common.Hash{}
+		child := crypto.CreateAddress2(k.C.Factory2, salt, crypto.Keccak256(init))
+		out = append(out, Script{"create2-ephemeral-twice", []TxSpec{
+			mk("factory2", 0, ptr(k.C.Factory2), 3, cat(word(0), init)),
+			mk("prober", 1, ptr(k.C.Prober), 0, addrWord(child)),
+			mk("factory2", 2, ptr(k.C.Factory2), 0, cat(word(0), init)),
+			mk("factory2", 0, ptr(k.C.Factory2), 0, cat(word(0), InitReturning(CodeStore))),
+			mk("factory2", 1, ptr(k.C.Factory2), 0, cat(word(0), InitReturning(CodeStore))), // address collision
+		}})
+	}
+	// S5: one slot written by several transactions incl. back to zero and back to the original value
+	out = append(out, Script{"multi-write-slot", []TxSpec{
+		mk("store", 0, ptr(k.C.Store), 0, cat(word(2), word(9))),
+		mk("store", 1, ptr(k.C.Store), 0, cat(word(2), word(0))),
+		mk("store", 2, ptr(k.C.Store), 0, cat(word(2), word(7))), // original value again
+		mk("copier", 0, ptr(k.C.Copier), 0, cat(word(2), word(0))),
+		mk("store", 1, ptr(k.C.Store), 0, cat(word(5), word(0))), // no-op store of an empty slot
+		mk("kv", 2, ptr(k.C.KV), 0, KVCall(3, 1, 2)),
+		mk("kv", 0, ptr(k.C.KV), 0, KVCall(2, 2, 3)),
+	}})
+	// S6: selfdestruct of a pre-existing contract towards a fresh beneficiary, then probes and a refill
+	{
+		fresh := common.BytesToAddress([]byte{0xf1, 0x02})
+		out = append(out, Script{"selfdestruct-beneficiary", []TxSpec{
+			mk("destruct", 0, ptr(k.C.Destructor), 3, addrWord(fresh)),
+			mk("prober", 1, ptr(k.C.Prober), 0, addrWord(fresh)),
+			mk("prober", 2, ptr(k.C.Prober), 0, addrWord(k.C.Destructor)),
+			mk("transfer", 0, ptr(k.C.Destructor), 9, nil),
+			mk("destruct", 1, ptr(k.C.Destructor), 0, addrWord(k.C.Destructor)), // beneficiary = self
+		}})
+	}
+	// S7: contract-creation transaction, its address used later in the block
+	{
+		child := crypto.CreateAddress(k.Addrs[3], keyNonce[3]+k.Gspec.Alloc[k.Addrs[3]].Nonce)
+		s := Script{Name: "deploy-then-use"}
+		s.Specs = append(s.Specs, mk("deploy", 3, nil, 13, InitCounterWithStorage))
+		s.Specs = append(s.Specs, mk("counter", 0, ptr(child), 0, nil), mk("prober", 1, ptr(k.C.Prober), 0, addrWord(child)),
+			mk("blockhash", 2, ptr(k.C.BlockHash2), 0, word(3)), mk("blockhash", 0, ptr(k.C.BlockHash), 0, word(2)))
+		out = append(out, s)
+	}
+	if k.AtLeast("prague") {
+		// S8: delegation set, used and cleared inside one block
+		storeA, nul := k.C.Store, common.Address{}
+		set := mk("setcode", 4, ptr(k.Addrs[5]), 0, cat(word(1), word(5)))
+		set.AuthKey, set.AuthTo = 5, &storeA
+		use := mk("call-delegated", 0, ptr(k.Addrs[5]), 0, cat(word(3), word(4)))
+		clr := mk("setcode-clear", 4, ptr(k.Addrs[5]), 0, nil)
+		clr.AuthKey, clr.AuthTo = 5, &nul
+		out = append(out, Script{"setcode-use-clear", []TxSpec{set, use, mk("prober", 1, ptr(k.C.Prober), 0, addrWord(k.Addrs[5])), clr,
+			mk("withdrawal-request", 2, ptr(params.WithdrawalQueueAddress), 1, make([]byte, 56))}})
+	}
+	return out
+}
+
+// ExtendScript appends one scripted block.
+func (c *Chain) ExtendScript(s Script) (*types.Block, types.Receipts, []string, error) {
+	beacon := common.BytesToHash([]byte(s.Name))
+	return c.ExtendSpecs(s.Specs, common.Address{0xc0, 0x1b}, &beacon, []*types.Withdrawal{{Validator: 1, Address: common.Address{0xf1, 0x03}, Amount: 5}})
+}
